@@ -83,7 +83,7 @@ def emit(shape):
 RC = ["exception_throw:cv_throw", "Tree_Get_Parent:cv_get_parent", "Tree_Set_Parent:cv_set_parent", "Tree_Set_Color:cv_set_color", "Tree_Get_Color:cv_get_color"]
 FUNCS = ["Tree_Set", "Tree_Set_Fix", "Tree_Rem", "Tree_Rem_Fix", "Tree_Rotate_Left", "Tree_Rotate_Right", "Tree_Replace", "Tree_Get", "Tree_Mem", "Tree_Maximum",
          "Tree_Sibling", "Tree_Uncle", "Tree_Grandparent", "Tree_Iter_Init", "Tree_Iter_Next", "Tree_Iter_Last", "Tree_Iter_Prev", "Tree_Clear", "Tree_Clear_Entry",
-         "Tree_Resize", "Tree_Alloc", "Tree_Left", "Tree_Right", "Tree_Key", "Tree_Val", "Tree_Len"]
+         "Tree_Resize", "Tree_Mark", "Tree_Alloc", "Tree_Left", "Tree_Right", "Tree_Key", "Tree_Val", "Tree_Len"]
 
 def jobs(tier, only_ops=None, prefix="C03"):
     nmax = 8 if tier == "thorough" else 5
@@ -109,7 +109,7 @@ def jobs(tier, only_ops=None, prefix="C03"):
                 defs = [] if key is None else ["OPKEY=%d" % key]
                 J.append(Job("%s.%s.shape%d.n%d%s" % (prefix, op, sid, n, "" if key is None else ".k%d" % key), "C03", "K3", "Tree/k3.c", "h_" + op, FUNCS, link=L,
                              defines=defs, replace_calls=RC, unwind=2 * n + 8, gen={"gen_shape.h": hdr}, covers=covers, group="Tree.%s" % op,
-                             also=["C05", "C11", "C12", "C19"], timeout=300, cbmc=["--unwindset", "calloc.0:%d" % (n + 4)],
+                             also=["C05", "C11", "C12", "C19", "C01", "C06"], timeout=300, cbmc=["--unwindset", "calloc.0:%d" % (n + 4)],
                              bound="Tree: every red-black shape with <= %d nodes (%d shapes), rank keys, operand = every present key and every gap" % (nmax, sum(counts[1:nmax + 1]) + 1),
                              case="shape %d (%d nodes) %s" % (sid, n, "" if key is None else "operand key %d" % key), replay="tree_search.c",
                              assumptions=["element model (contracts/elem.h, light ledger)", "calloc/free: typed node-pool model (assumed allocator contract)",
@@ -122,11 +122,12 @@ def jobs(tier, only_ops=None, prefix="C03"):
             for k in (sorted(keys)[:1] + [1] if tier != "thorough" else sorted(keys) + [1]):
                 add("get", k, covers=(k == 1))
             add("iter", covers=True)
+            add("mark", covers=True)
             add("clear", 1, covers=True)
     return J
 
 
-TREE_OPS_FOR = {"C05": ["set", "rem", "clear"], "C11": ["iter"], "C12": ["rem", "get"], "C19": ["get", "iter"]}
+TREE_OPS_FOR = {"C01": ["mark"], "C06": ["clear"], "C05": ["set", "rem", "clear"], "C11": ["iter"], "C12": ["rem", "get"], "C19": ["get", "iter"]}
 
 def tree_jobs(tier, prop):
     return jobs(tier, only_ops=TREE_OPS_FOR[prop], prefix=prop + ".Tree")
